@@ -27,20 +27,27 @@ TInit == Init /\ l = 1
 TReset == /\ IsEv("Reset") /\ Trace[l].full = FullNode
           /\ height' = 0 /\ stored' = <<>> /\ rs' = [has |-> FALSE, run |-> -1]
           /\ db' = [hi |-> NoRec, hist |-> [h \in Heights |-> NoRec]]
-          /\ restarts' = 0 /\ wf' = 0 /\ top' = -1 /\ lc' = -1
+          /\ restarts' = 0 /\ wf' = 0 /\ rf' = 0 /\ lf' = "ok" /\ top' = -1 /\ lc' = -1
           /\ act' = [name |-> "init", full |-> FullNode]
 TStartDuty == IsEv("StartDuty") /\ StartDuty(Trace[l].slot) /\ act'.ok = Trace[l].ok /\ ObsOK
 TCtlStart  == IsEv("CtlStart") /\ CtlStart(Trace[l].slot) /\ act'.ok = Trace[l].ok /\ ObsOK
 (* "fail": the write attempts of the call (1 = its first db.Set) that the harness made fail, as they were hit *)
 Fails == {Trace[l].fail[j] : j \in 1..Len(Trace[l].fail)}
+(* "rfail": the outcomes the harness forced on the storage reads of the call, by read attempt (1 = its first db.Get),
+   as they were hit; every call of this footprint makes at most one read: <<>> = none forced *)
+Rd == IF Len(Trace[l].rfail) = 0 THEN "ok" ELSE Trace[l].rfail[1]
 TLocalMsgs == IsEv("LocalMsgs") /\ LocalMsgs(Trace[l].h, Fails) /\ ObsOK
 TCommit4   == IsEv("Commit4") /\ Commit4(Trace[l].h) /\ ObsOK
-TDecided   == IsEv("Decided") /\ Decided(Trace[l].h, Trace[l].r, Trace[l].n, Fails) /\ ObsOK
+TDecided   == IsEv("Decided") /\ Len(Trace[l].rfail) <= 1
+              /\ (\/ Decided(Trace[l].h, Trace[l].r, Trace[l].n, Fails, Rd)
+                  \/ Fails = {} /\ DecidedReadErr(Trace[l].h, Trace[l].r, Trace[l].n, Rd)) /\ ObsOK
 TOnTimeout == IsEv("OnTimeout") /\ OnTimeout(Trace[l].h, Trace[l].r) /\ ObsOK
-TRestart   == IsEv("Restart") /\ Restart /\ ObsOK
+TRestart   == IsEv("Restart") /\ Len(Trace[l].rfail) <= 1 /\ Restart(Rd) /\ ObsOK
 (* the process died inside the call, k database writes of it are durable; obs is taken after Validator.Start *)
-TDecidedCrash   == IsEv("DecidedCrash") /\ DecidedCrash(Trace[l].h, Trace[l].r, Trace[l].n, Trace[l].k) /\ ObsOK
-TLocalMsgsCrash == IsEv("LocalMsgsCrash") /\ LocalMsgsCrash(Trace[l].h, Trace[l].k) /\ ObsOK
+TDecidedCrash   == IsEv("DecidedCrash") /\ Len(Trace[l].rfail) <= 1
+                   /\ DecidedCrash(Trace[l].h, Trace[l].r, Trace[l].n, Trace[l].k, Rd) /\ ObsOK
+TLocalMsgsCrash == IsEv("LocalMsgsCrash") /\ Len(Trace[l].rfail) <= 1
+                   /\ LocalMsgsCrash(Trace[l].h, Trace[l].k, Rd) /\ ObsOK
 TNext == TReset \/ TStartDuty \/ TCtlStart \/ TLocalMsgs \/ TCommit4 \/ TDecided \/ TOnTimeout \/ TRestart
          \/ TDecidedCrash \/ TLocalMsgsCrash
 TraceSpec == TInit /\ [][TNext]_tvars
